@@ -1,5 +1,6 @@
 import Kopf.Drv.Json
 import Kopf.Model.C06_Finalizer
+import Kopf.Model.C06_Registry
 open Lean
 namespace Kopf.Drv.C06
 open Kopf.C06
@@ -142,6 +143,13 @@ def handle : DrvHandler := fun op args =>
       let s : LState := { base := b, queue := [snap b], sleeping := false, cycDelays := false, cycMerge := false,
                           cycChanges := false, cycViewRv := 0, cycUserFns := false }
       some (ok (replay own s 0 (← jArr? items)))
+  -- `requires_finalizer` of a registry: [excluded ids, [[id, requires_finalizer, (pre)matches], …] in registration order]
+  | "C06.requires", [ex, regs] => do
+      let regs ← (← jArr? regs).mapM fun r => do
+        match ← jArr? r with
+        | [i, q, m] => some ({ id := ← jStr? i, requires := ← jBool? q, hit := ← jBool? m } : Reg)
+        | _ => none
+      some (ok (.bool (requiresLoop (← jStrList? ex) regs)))
   | _, _ => none
 
 end Kopf.Drv.C06
